@@ -60,6 +60,8 @@ type gluelockPlan struct {
 	Faults    []string        `json:"faults,omitempty"`
 	Victim    int             `json:"victim,omitempty"`     // which locked package the fault hits (modulo the number of locked packages)
 	FaultHTTP bool            `json:"fault_http,omitempty"` // inject the faults into the HTTP repository instead of the directory
+	Stale     bool            `json:"stale,omitempty"`      // re-sign a locked package between two runs that share a package cache
+	Full      bool            `json:"full,omitempty"`       // run the option matrix also when the plain lock of the case fails
 }
 
 var gluelockFaultKinds = []string{"removed", "flip-data", "flip-control", "garbage", "truncated", "grown", "other-package", "resigned", "unlisted", "arch-down"}
@@ -67,8 +69,10 @@ var gluelockFaultKinds = []string{"removed", "flip-data", "flip-control", "garba
 var gluelockCacheStates = []string{"off", "cold", "warm", "fresh"}
 
 func gluelockGenPlan(r *Rng, tier string) *gluelockPlan {
-	p := &gluelockPlan{Victim: r.Range(0, 40), FaultHTTP: r.Chance(30)}
+	p := &gluelockPlan{Victim: r.Range(0, 40), FaultHTTP: r.Chance(30), Stale: r.Chance(50)}
 	if tier == "thorough" {
+		p.Full = true
+		p.Stale = true
 		p.Combos = []gluelockCombo{{false, false}, {true, false}, {false, true}, {true, true}}
 		p.Faults = append([]string{}, gluelockFaultKinds...)
 		return p
@@ -346,7 +350,8 @@ func gluelockSizes(o E2EOut) string {
 // gluelockFileLine: per locked package the section sizes of the file at its URL (measured here), the digests of those
 // sections and what the lock records; the driver rebuilds the entry from the sizes (Impl, expressions regenerated from
 // LockCmd) and checks that Go's ranges tile the file (oracle).
-func (e *gluelockEnv) lockfileFields(lockText string) (fields []string, goOut string, bad string) {
+// cachedFrom: the bytes the package cache was filled from, when that is not the file at the URL now (nil otherwise).
+func (e *gluelockEnv) lockfileFields(lockText string, cachedFrom map[string][]byte) (fields []string, goOut string, bad string) {
 	var lf lkLockFile
 	if err := json.Unmarshal([]byte(lockText), &lf); err != nil {
 		return nil, "bad:json", "bad:json"
@@ -367,6 +372,14 @@ func (e *gluelockEnv) lockfileFields(lockText string) (fields []string, goOut st
 		c1 := sha1.Sum(b[sz[0] : sz[0]+sz[1]])
 		d2 := sha256.Sum256(b[sz[0]+sz[1]:])
 		fields = append(fields, fmt.Sprint(sz[0]), fmt.Sprint(sz[1]), fmt.Sprint(sz[2]), xs("sha1-"+b64(s1[:])), xs("sha1-"+b64(c1[:])), xs("sha256-"+b64(d2[:])), xs("Q1"+b64(c1[:])))
+		// the signature section the cache entry holds
+		osz, osum := sz[0], s1
+		if ob, ok := cachedFrom[p.URL]; ok {
+			if o, ok := gluelockSections(ob); ok {
+				osz, osum = o[0], sha1.Sum(ob[:o[0]])
+			}
+		}
+		fields = append(fields, fmt.Sprint(osz), xs("sha1-"+b64(osum[:])))
 		recs = append(recs, xl([]string{p.Signature.Range, p.Signature.Checksum, p.Control.Range, p.Control.Checksum, p.Data.Range, p.Data.Checksum, p.Checksum}))
 	}
 	return fields, strings.Join(recs, ";"), ""
@@ -433,7 +446,7 @@ func (e *gluelockEnv) optionSteps(c gluelockCombo, refLock string, refLockErr er
 	for _, st := range gluelockCacheStates {
 		r := gluelockErrStr(errs[st])
 		if errs[st] == nil {
-			fields, goOut, bad := e.lockfileFields(locks[st])
+			fields, goOut, bad := e.lockfileFields(locks[st], nil)
 			if bad != "" {
 				r = bad
 				fail("apko lock (%s, package cache %s) records %s", c, st, bad)
@@ -464,6 +477,7 @@ func (e *gluelockEnv) optionSteps(c gluelockCombo, refLock string, refLockErr er
 		}
 		got = append(got, st+"="+r)
 	}
+	steps = append(steps, e.staleStep(c, cacheDir, locks["off"], errs["off"], desc)...)
 	// against the reference lock of the case: nothing in a lock file depends on ignore-signatures (the indexes here carry
 	// valid signatures); across transports the repository root differs, and so does the order in which apko loads
 	// pinned repositories ("@pin https://…" sorts before "https://…", "@pin /dir" after "/dir"), hence only without pins
@@ -538,6 +552,49 @@ func (e *gluelockEnv) optionSteps(c gluelockCombo, refLock string, refLockErr er
 	steps = append(steps, Step{Line: "x.robust\tbuild-options-" + c.String() + "-" + e.hash(), Go: strings.Join(got, " "), Mode: "oracle-go", GoSpec: verdict, NoImpl: true,
 		Desc: "build --lockfile under the option matrix: " + desc, Tags: []string{"glue:build-options:" + c.String(), "glue:build-options:" + strings.SplitN(verdict, ":", 2)[0]}, Trivial: builds["off"].Err != nil})
 	return steps
+}
+
+// staleStep: between two runs that share a package cache one locked package is published again under the same URL with
+// the same control and data sections behind another signature section (a repository that re-signs its packages); the
+// second run is a fresh process. Its lock must still describe the files that are at the recorded URLs.
+func (e *gluelockEnv) staleStep(c gluelockCombo, cacheDir, lockOff string, lockErr error, desc string) []Step {
+	plan := e.c.E2E.Glue
+	var lf lkLockFile
+	if !plan.Stale || lockErr != nil || json.Unmarshal([]byte(lockOff), &lf) != nil || len(lf.Contents.Packages) == 0 {
+		return nil
+	}
+	victim := plan.Victim % len(lf.Contents.Packages)
+	vp := lf.Contents.Packages[victim]
+	old, err := e.read(vp.URL)
+	if err != nil {
+		return nil
+	}
+	change, _, _ := e.fault("resigned", lf, victim)
+	restoreDisk := e.apply(change, false)
+	restoreHTTP := e.apply(change, true)
+	defer restoreDisk()
+	defer restoreHTTP()
+	apk.VerifResetGlobalCaches()
+	text, err := e.lock(c, cacheDir)
+	if err != nil {
+		return nil
+	}
+	fields, goOut, bad := e.lockfileFields(text, map[string][]byte{vp.URL: old})
+	if bad != "" {
+		return nil
+	}
+	ign := "0"
+	if c.IgnoreSig {
+		ign = "1"
+	}
+	line := append([]string{"l.lockfile", "stale", ign}, fields...)
+	line = append(line, goOut)
+	var slf lkLockFile
+	json.Unmarshal([]byte(text), &slf)
+	rc := lkCheckRangesWith(slf, e.read)
+	return []Step{{Line: strings.Join(line, "\t"), Go: goOut, Mode: "verdict",
+		Desc: fmt.Sprintf("apko lock (%s) from a package cache filled before %s-%s (%s) was published again behind another signature section (recomputed by the harness: %s): ", c, vp.Name, vp.Version, vp.Architecture, rc) + desc,
+		Tags: []string{"glue:lockfile:stale:" + strings.SplitN(rc, ":", 2)[0]}}}
 }
 
 func gluelockFirstDiff(a, b string) string {
@@ -856,7 +913,10 @@ func gluelockSteps(work string, c lkCase, ic types.ImageConfiguration, archs []t
 	}
 	e := gluelockNewEnv(work, c, ic, archs)
 	var steps []Step
-	for _, combo := range plan.Combos {
+	for i, combo := range plan.Combos {
+		if refLockErr != nil && !plan.Full && i > 0 {
+			break // quick tier: an unresolvable world is locked under one variant only
+		}
 		steps = append(steps, e.optionSteps(combo, refLock, refLockErr, refBuild)...)
 	}
 	if refLockErr == nil && refBuild.Err == nil && len(plan.Faults) > 0 {
